@@ -46,6 +46,7 @@ THEOREMS = ["links_consistent", "hexLen_unit_step", "meshLen_eq_dist", "torusLen
             "hexagons_exact", "hexagons_negative", "hexDist_is_graph_distance",
             "fromVector_wrap", "oracle_distIs_iff", "oracle_levelOf_isDist", "linksBetween_exact",
             "specLinksBetween_mem", "opposite_returns", "torus_vector_walk"]
+THEOREMS += ['gen_to_xyz', 'gen_minimise_xyz', 'gen_mesh_len', 'gen_torus_len', 'gen_torus_len_is_model']   # translator tie: generated function bodies = model (Props/C11Gen.lean)
 
 RULE = ("torus cases: for chosen (w, h, source chip) every or many destination chips, each in a random three-axis "
         "representation (random z offset, occasional multiples of w/h added), sizes include every w,h in 1..5; "
